@@ -294,7 +294,7 @@ func Int2BV(a Term, w int) Term {
 func quoteSym(name string) string {
 	ok := true
 	for _, c := range name {
-		if !(c >= 'a' && c <= 'z' || c >= 'A' && c <= 'Z' || c >= '0' && c <= '9' || c == '_' || c == '.' || c == '!' || c == '$' || c == '#' || c == '@' || c == '~' || c == '/' || c == '-' || c == '*' || c == '<' || c == '>' || c == '=' || c == '%' || c == '?' || c == '&' || c == '^' || c == '+') {
+		if !(c >= 'a' && c <= 'z' || c >= 'A' && c <= 'Z' || c >= '0' && c <= '9' || c == '_' || c == '.' || c == '!' || c == '$' || c == '@' || c == '~' || c == '/' || c == '-' || c == '*' || c == '<' || c == '>' || c == '=' || c == '%' || c == '?' || c == '&' || c == '^' || c == '+') {
 			ok = false
 			break
 		}
